@@ -85,6 +85,12 @@ fn main() {
             }
             println!("rust harness: {} states, {} modules, {} excluded, built in {:.1}s", h.states.len(), h.modules, h.excluded.len(), h.build_s);
         }
+        "family-sizes" => {
+            let tier = tier_of(args.get(2).map(|s| s.as_str()).unwrap_or("quick"));
+            for f in pdlmc_core::graph::all_families() {
+                println!("{}: {:?}", f.name, pdlmc_core::graph::level_sizes(f, tier, 3_000_000));
+            }
+        }
         "supported" => {
             let tier = tier_of(args.get(2).map(|s| s.as_str()).unwrap_or("quick"));
             front::print_supported(tier);
